@@ -286,6 +286,25 @@ def tool_space(ctx):
             shutil.rmtree(d, ignore_errors=True)
 
     common.parallel(one, jobs)
+    # command-line syntax: options without their operand, bundled options, empty words, unknown options -- with getopt() and with the tools' own parser (a libc without getopt)
+    crypt_lines = [["-g"], ["-e", "-g"], ["-d", "-g"], ["-p"], ["-k"], ["-o"], ["-e", "-p"], ["-e", "-o"], ["-ep"], ["-eg"], ["-dk"], ["-z"], ["--"], ["-"], [""], ["-e", ""], ["-p", "x", "-o"],
+                   ["-e", "-p", "x", "-k"], ["-e", "-p", "x", "f.bin", "-o"], ["-gk"], ["-g", ""], ["-e", "-pfoo", "f.bin"], ["-epfoo", "f.bin"], ["-e", "-p", "foo", "-of.enc", "f.bin"], ["-d", "-p", "foo", "f.enc", "-o", "x"],
+                   ["-e", "-p", "foo", "--", "f.bin"], ["-e", "-p", "foo", "-", "f.bin"], ["-p", "foo"], ["-e", "-e", "-d", "-p", "foo", "f.bin"], ["-gkey1", "extra"], ["-g", "key2", "extra"]]
+    sum_lines = [["-c"], ["-z"], ["-h", "-c"], ["-hc"], ["--"], [""], ["-x"], ["-xy", "f.bin"], ["-c", "-c", "f.bin"], ["-h", "", "f.bin"], ["-a", "--", "f.bin"], ["f.bin", "-c"]]
+    for variant in ("getopt", "own-parser"):
+        try:
+            tools = (crypt, summ) if variant == "getopt" else build_tools(san="asan", nogetopt=True)[1:]
+        except build.BuildError as e:
+            ctx.fail("build-error:tools-" + variant, str(e)[-500:])
+            continue
+        d = os.path.join(root, "syntax-" + variant)
+        os.makedirs(d)
+        with open(os.path.join(d, "f.bin"), "wb") as f:
+            f.write(b"q" * 50)
+        for line in crypt_lines:
+            run([tools[0]] + line, d, "command line (%s)" % variant)
+        for line in sum_lines:
+            run([tools[1]] + line, d, "command line (%s)" % variant)
     shutil.rmtree(root, ignore_errors=True)
     ctx.sample("tools under ASan+UBSan: %d argv/file-shape cases (file names 1..255 with/without .ascon in -e/-d/auto modes, paths around 8192 characters, passwords and key files around 1024, checksum lines around 1024)" % len(jobs))
 
